@@ -241,7 +241,10 @@ End Prod.
          m_abad_f tr' = false, then [flbad_from_monitors] gives flbad tr' = false) or flbad is unchanged by it (then
          JA(tr') holds and yields the legitimacy of the "_free"/"_new", i.e. m_cbad_f tr' = false).
          [flbad_from_monitors] is the only lemma about [hist] you need from here.
-    NOT DONE here: (i) the [fquiet] proofs for the DHP programs other than fl_put/fl_get (mechanical); (ii) the
-    derivation of [m_cbad = false] from JA (needs your invariant); (iii) the initial-state lemma of (a) is
-    described, not proved; (iv) "no loss" (quiescent => every freed block is obtainable) is not generalised —
-    only the safety half (no double hand-out / unique holder) is. *)
+    DONE SINCE (read these instead of redoing it): (i) every DHP thread keeps [DInv NR f]: the certificate
+    LV.Proofs.DhpCert / DhpCertProgs and LV.Proofs.DhpCertDInvSp.dsafeF_thread; (ii) [m_cbad = false] from JA / JB
+    (block not currently free) and from the knowledge invariant LV.Proofs.DhpFlX / DhpFlXSp (block exists, initialised;
+    a new block did not exist), tied node by node in LV.Proofs.DhpFlKnot.Good_step (syntactic condition:
+    LV.Proofs.DhpFlNok); (iii) initial state + assembly: LV.Proofs.DhpFlThm ([dhp_flbad_false]).
+    STILL NOT DONE: "no loss" (quiescent => every freed block is obtainable) is not generalised — only the safety
+    half (no double hand-out / unique holder) is. *)
